@@ -24,10 +24,10 @@ type GenOpts struct {
 	HostileLabels   bool // labels with arbitrary octets (escapes) in addition to plain ones
 	// KeywordLike (optional): directive arguments ($ORIGIN, $INCLUDE origin) must not start with a
 	// label for which it returns true (known finding directive-arg-keyword).
-	KeywordLike func(token string) bool
+	KeywordLike      func(token string) bool
 	NoNegativeOffset bool // $GENERATE modifiers only with offsets >= 0
-	OnlyGenerate    bool // mostly $GENERATE items (plus $ORIGIN / $TTL and a few records)
-	IncludeHeavy    bool // many $INCLUDE items, chains up to the depth limit
+	OnlyGenerate     bool // mostly $GENERATE items (plus $ORIGIN / $TTL and a few records)
+	IncludeHeavy     bool // many $INCLUDE items, chains up to the depth limit
 }
 
 type zgen struct {
